@@ -2,7 +2,8 @@
 (* Batch oracle for the id generator: records of draws from the real genRequestID (ids mapped into the model's id   *)
 (* space region by region) are judged against IdGen.  kind "seq": n uninterrupted draws from a start value must be   *)
 (* exactly SeqFrom(start, n).  kind "burst": the ids drawn by concurrent goroutines (sorted) must be non-zero,        *)
-(* pairwise distinct, and a subset of what the generator can hand out in that many draws.                             *)
+(* pairwise distinct, and a subset of what the generator can hand out in that many draws ("bigburst": 6400 draws,     *)
+(* non-zero and distinct only).                                                                                       *)
 EXTENDS IdGen, Json, TLC
 VARIABLE dummy
 Recs == ndJsonDeserialize("recs.ndjson")
@@ -10,7 +11,8 @@ Range(s) == {s[i] : i \in DOMAIN s}
 HasZero(r) == 0 \in Range(r.ids)
 HasDup(r) == Cardinality(Range(r.ids)) # Len(r.ids)
 Conforms(r) == IF r.kind = "seq" THEN r.ids = SeqFrom(r.start, Len(r.ids))
-               ELSE Range(r.ids) \subseteq Reach(r.start, Len(r.ids) + 1)
+               ELSE IF r.kind = "burst" THEN Range(r.ids) \subseteq Reach(r.start, Len(r.ids) + 1)
+               ELSE TRUE      \* "bigburst": thousands of draws from goroutines running in parallel, judged for zero and duplicates only
 Zero == {i \in DOMAIN Recs : HasZero(Recs[i])}
 Dup == {i \in DOMAIN Recs : HasDup(Recs[i])}
 Off == {i \in DOMAIN Recs : ~Conforms(Recs[i])}
